@@ -82,13 +82,15 @@ def world_adversarial():
     mixed with authentic entries; wrong validator-set hash; malformed key ids; unknown block hash."""
     w = base_world()
     V = []
-    bads = [E(2, c) for c in ("flip", "otherkey", "otherkind", "otherround", "othertarget", "otherheight")]
+    bads = [E(2, c) for c in ("flip", "otherkey", "otherkind", "otherround", "othertarget", "otherheight", "stolen")]
     for kind in ("prevote", "precommit"):
         for (h, r) in ((1, 0), (1, 1), (1, 2), (2, 0)):
             t = "A1" if h == 1 else "A2"
             for b in bads:
                 V.append(vote(kind, h, r, {t: S([b])}))
             V.append(vote(kind, h, r, {t: S([E(1), E(3, "flip")])}))        # mixed
+            V.append(vote(kind, h, r, {t: S([E(1), E(2, "stolen")])}))      # validator 1's signature re-filed under key id 2
+            V.append(vote(kind, h, r, {t: ok(1)}))
             V.append(vote(kind, h, r, {"X": S([E(2, "flip")])}))             # unknown hash, invalid
             V.append(vote(kind, h, r, {"X": ok(2)}))                         # unknown hash, authentic
             V.append(vote(kind, h, r, {t: S([E(0), E(-3)])}))               # out of range / 3-byte ids only
@@ -164,7 +166,7 @@ def world_valsets():
     """C07: the application changes keys and powers at every height; forged validator lists."""
     w = base_world()
     w["valsets"]["W"] = {"keys": [2, 3, 4, 5], "pow": [3, 1, 1, 1]}
-    w["valsets"]["F"] = {"keys": [6, 7, 8], "pow": [1, 1, 1]}
+    w["valsets"]["F"] = {"keys": [6, 7, 8], "pow": [1, 1, 1], "stored": True}    # known to the validator store
     hdr = w["hdr"]
     hdr["A1"]["nvs"] = "W"
     hdr["B1"]["nvs"] = "G"
@@ -174,6 +176,10 @@ def world_valsets():
     V += [vote("precommit", 2, 0, {"A2": ok(1, 2)}, "W"), vote("precommit", 2, 0, {"A2": ok(1,)}, "W"), vote("precommit", 2, 0, {"A2": ok(2, 3, 4)}, "W"),
           vote("prevote", 2, 0, {"A2": ok(1, 2)}, "W"), vote("precommit", 2, 0, {"A2": ok(1, 2, 3)}, "G"), vote("precommit", 2, 0, {"B2": ok(1, 2, 3)}, "G"),
           vote("precommit", 2, 0, {"A2": ok(1, 2, 3)}, "F")]
+    # a future round of the voting height, claimed for (and signed by) a set that is not the height's
+    for kind in ("prevote", "precommit"):
+        V += [vote(kind, 1, 2, {"A1": ok(1, 2, 3)}, "F"), vote(kind, 1, 3, {"nil": ok(1, 2)}, "W"), vote(kind, 1, 2, {"A1": ok(1, 2)}, "G"),
+              vote(kind, 2, 2, {"A2": ok(1, 2, 3)}, "G"), vote(kind, 2, 2, {"A2": ok(1, 2, 3)}, "F")]
     w["votes"] = S(V)
     w["phs"] = S([ph("A1", 0, 1), ph("A2", 0, 2), ph("B2", 0, 2), ph("A2", 0, 5), ph("A2", 0, 1)])
     w["replays"] = S([replay("A1", 0, {"A1": ok(1, 2, 3)}), replay("A2", 0, {"A2": ok(1, 2)}), replay("B2", 0, {"B2": ok(1, 2, 3)})])
@@ -260,12 +266,16 @@ def to_sets(v):
     return v
 
 
+def with_stored(valsets):
+    return {k: dict(v, stored=bool(v.get("stored", False))) for k, v in valsets.items()}
+
+
 def write_world(w, rank, path, guide=None):
     g = [{"op": s["op"], "args": to_sets(s["args"]) if s["args"] not in (None, "null") else "null", "crashAt": s.get("crashAt", 0)}
          for s in (guide or [])]
     defs = {
         "W_Guide": g,
-        "W_Valsets": w["valsets"], "W_Genesis": w["genesis"], "W_HDR": w["hdr"], "W_Rank": rank,
+        "W_Valsets": with_stored(w["valsets"]), "W_Genesis": w["genesis"], "W_HDR": w["hdr"], "W_Rank": rank,
         "W_VoteMsgs": w["votes"], "W_PHMsgs": w["phs"], "W_ReplayMsgs": w["replays"],
         "W_SMEntrances": w["smentr"], "W_SMVotes": w["smvotes"],
     }
